@@ -6,3 +6,6 @@ template QExpression::QOperation TC::getOperation(const char *, SizeT &, const S
 template bool TC::isExpression(const char *, SizeT) noexcept;
 }
 template struct QV::GStream<char>;
+namespace Qentem {
+template struct Finder<Tags::List<char>, char, SizeT>;
+}
